@@ -190,8 +190,16 @@ class TexturedTriMesh(TriMesh):
         trimesh : :map:`TriMesh`
             A new trimesh created from the vector with ``self`` trilist.
         """
+        points = flattened.reshape([-1, self.n_dims])
+        if points.shape[0] != self.n_points:
+            # trilist, tcoords and texture are drawn from self, so the number
+            # of points cannot change
+            raise ValueError(
+                "Expected a vector of {} parameters ({} points) - got {} "
+                "instead.".format(self.n_parameters, self.n_points, flattened.size)
+            )
         new = TexturedTriMesh(
-            flattened.reshape([-1, self.n_dims]),
+            points,
             self.tcoords.points,
             self.texture,
             trilist=self.trilist,
